@@ -18,8 +18,13 @@ CONFIGS = [
 LATE = ('late', dict(B, NRoots=2, MaxActs=2, RootOps=4, Horizon=3, MaxScopes=1, TickSel='basic',
                      Menu={'sleep', 'tick', 'until_f', 'fset', 'leave'}))
 CONFIGS.append(LATE)
+# tickers in children that are closed forcefully in the middle of a pause (until trigger, volatile child at the end of
+# its block) while a neighbour goes on ticking past the date of that pause
+CLOSED = ('closed', dict(B, NRoots=2, MaxActs=3, RootOps=3, TaskOps=1, Horizon=4, MaxScopes=1, TickSel='mixed',
+                         Menu={'sleep', 'tick', 'until_d', 'do', 'do_volatile', 'leave'}))
+CONFIGS.append(CLOSED)
 THOROUGH = CONFIGS
-QUICK = [LATE,
+QUICK = [LATE, CLOSED,
     ('mixed', dict(B, NRoots=2, MaxActs=2, RootOps=3, Horizon=4, TickSel='mixed', Menu={'instant', 'sleep', 'tick'})),
     ('until', dict(B, NRoots=2, MaxActs=2, RootOps=3, Horizon=3, MaxScopes=2, TickSel='basic',
                    Menu={'instant', 'sleep', 'tick', 'until_d', 'leave'})),
